@@ -40,7 +40,7 @@ CLAIMS = {
          'DESIGN.md §7 C08'),
  'C09': ('proof + correspondence', 'Lean 4: two-way agreement of every secondary index and queue with the primary records (NodeIdx, SessIdx, SubIdx, RecInv) is inductive over every operation and holds in every reachable state; no duplicate keys; every queue entry points at a live record with that deadline and every deadline is queued; a removed record is in no index of the same state; C09Listings: for each of the 15 filtered listing handlers of the query model the store view iterated is exactly the index entries of the requested attribute (prefix isolation incl. addresses in prefix relation), every callback lookup succeeds (never an internal error), the records listed are exactly the records with the attribute, each once, and key/offset paging enumerates exactly them (listings_exact, runQuery_never_internal; hypothesis CountersOK: fewer than 2^64 ids issued); also tied by lock-step execution of all 20 paged queries and 9 getters on generated states (incl. addresses in prefix relation) and the index monitors on implementation states loaded into the model',
          'DESIGN.md §7 C09'),
- 'C12': ('proof of a partial statement + witnesses of the failing part + correspondence', 'Lean 4 model of Export/Validate/InitGenesis of all hub modules: roundtrip_reachable / continuation_reachable (C12Reach): for every state of every history from a valid genesis (block times after Go's zero time) whose recorded swaps are >= 100, the export does not panic, validates, and re-imports to a state that agrees on every surviving table, and any continuation by provider/node/plan messages gives the same outcomes and events (GenWF is proved from the invariants: genWF_of_reachable); the full statement is FALSE on this tree: machine-checked reachable witnesses subscriptions_lost_by_roundtrip (F5), session_counter_reissued (F9), small_swap_invalidates_export (F4) - known findings reproduced on the real app; export/reimport run on the real app at block boundaries of generated histories and are compared with the model and with the stored state',
+ 'C12': ('proof of a partial statement + witnesses of the failing part + correspondence', 'Lean 4 model of Export/Validate/InitGenesis of all hub modules: roundtrip_reachable / continuation_reachable (C12Reach): for every state of every history from a valid genesis (block times after the zero time of Go) whose recorded swaps are >= 100, the export does not panic, validates, and re-imports to a state that agrees on every surviving table, and any continuation by provider/node/plan messages gives the same outcomes and events (GenWF is proved from the invariants: genWF_of_reachable); the full statement is FALSE on this tree: machine-checked reachable witnesses subscriptions_lost_by_roundtrip (F5), session_counter_reissued (F9), small_swap_invalidates_export (F4) - known findings reproduced on the real app; export/reimport run on the real app at block boundaries of generated histories and are compared with the model and with the stored state',
          'DESIGN.md §7 C12'),
  'C18': ('proof + correspondence', 'Lean 4: counters and record identity (CountInv) hold in every state of every history; ids are issued in order (count+1), fresh, never reissued along any history, a rejected message consumes none, non-creating operations keep the counters, children carry their parent id, a session never changes subscription; tied by lock-step execution and the counters monitor on implementation states',
          'DESIGN.md §7 C18'),
